@@ -30,6 +30,14 @@ def rand_cfg(rng: random.Random, **over) -> Cfg:
     # the receiver's configuration for this sender need not mirror the sender's configuration for the receiver
     if rng.random() < 0.35:
         c.dst_over = {"ack_ms": rng.choice([250, 500, 1000, 2000, 4000]), "nak_ms": rng.choice([250, 500, 1000, 2000])}
+    # ... nor in the values a receiver must take from the PDUs and not from its own table: checksum type, closure, mode,
+    # CRC flag and segment length are the sender's to choose
+    if rng.random() < 0.3:
+        c.dst_over = dict(c.dst_over or {})
+        for k, vals in (("cktype", [15, 15, 0, 2, 3]), ("closure", [True, False]), ("mode", [0, 1]), ("crc", [True, False]),
+                        ("max_seg", [1, 2, 64])):
+            if rng.random() < 0.5:
+                c.dst_over[k] = rng.choice(vals)
     for k, v in over.items():
         setattr(c, k, v)
     return c
